@@ -88,7 +88,14 @@ RULE = ("feature sets of 300 (quick: 250) features on 2-4 seqids x 3 strands x 5
         "for the same seqid), for 1-3 seqids without features (also spellings differing in letter case), other '##' directives; "
         "70% of the lines at the top, the others before the first feature of their seqid; 20-40% of the queries on such a "
         "database (any form) have their end beyond the declared end of the queried seqid, placed on a feature that ends / "
-        "starts beyond it")
+        "starts beyond it.  'oddseq' cases: a small database whose seqids hold ',', '-', ' ', '%', '=', ';', '|' "
+        "('contig_12,len=4003', 'chr1,000', 'chr-1-2', '1-5', 'scaffold 7', 'GC50%', 'sc%2C1', ...) next to their twins without "
+        "that character ('contig_12len=4003', 'chr1000', ...) and plain ones, all carrying features at the same coordinates; "
+        "10-15 queries each asked as region tuple / 'seqid:start-end' string / keyword / Feature form and as limit= tuple / "
+        "string of the four apis (string against tuple and both against the scan of the stored rows), 20% as the bare 'seqid' "
+        "string; the featuretype restriction of these and of 30% of the list / tuple restrictions of the ordinary queries "
+        "names a type more than once (['exon', 'CDS', 'exon']; 35%: built at run time from the featuretypes of a gene's "
+        "children); seqids holding ':' are stored too and queried through the tuple / keyword / Feature forms")
 REQUIRED = ["queries executed", "result rows compared", "sql: bin clause present", "sql: bin clause absent",
             "sql: region bin clause with 9..899 bins", "sql: limit bin clause with 9..899 bins", "sql: region within, both bounds in range, no bin clause (>= 900 bins)",
             "sql: limit, no bin clause (>= 900 bins)", "queries with an end >= 2**29", "one-sided queries",
@@ -160,19 +167,40 @@ REQUIRED = ["queries executed", "result rows compared", "sql: bin clause present
            ["directives: such answers, form %s" % f for f in ("region/tuple", "region/string", "region/feature", "region/kw",
                                                               "all_features/tuple", "features_of_type/tuple", "children/tuple",
                                                               "parents/tuple", "all_features/string")]
+REQUIRED += ["odd seqids: databases built",
+             "odd seqids: bare 'seqid' string form, non-empty answer equal to the keyword form",
+             "odd seqids: bare 'seqid' string form, non-empty answer, seqid holding ','",
+             "odd seqids: region string-form queries that another stored seqid's features would have matched (none returned)",
+             "odd seqids: region string-form queries that the features of the twin seqid without the character would have "
+             "matched (none returned)",
+             "odd seqids: non-empty tuple / keyword / Feature form answers on a seqid holding ':'",
+             "repeated featuretypes: restriction built from the featuretypes of a feature's children"] + \
+            ["odd seqids: %s string form, non-empty answer equal to the tuple form, seqid holding %s" % (k, c)
+             for k in ("region", "limit=") for c in ("','", "'-'", "' '", "'%'")] + \
+            ["repeated featuretypes: non-empty answers, each feature once: %s" % a
+             for a in ("region", "region within", "region overlap", "all_features(limit=)", "features_of_type(limit=)",
+                       "children(limit=)", "parents(limit=)")]
 REQUIRED_CLASSES = ["region/%s/%s" % (f, w) for f, _ in G.REGION_FORMS for w in ("overlap", "within")] + \
                    ["%s/%s/%s" % (a, f, w) for a in ("all_features", "features_of_type", "children", "parents")
                     for f, _ in G.LIMIT_FORMS for w in ("overlap", "within")] + \
                    ["interleave/nested", "interleave/schedule", "handles/second handle updates the file", "big/one large answer",
                     "rewritten/rows rewritten with other coordinates",
-                    "directives/queries on a database imported from a file with ##sequence-region lines"]
+                    "directives/queries on a database imported from a file with ##sequence-region lines",
+                    "oddseq/seqids holding , - space % and repeated featuretype entries"]
 ASSUMPTIONS = [
     "one bound only: a result R is accepted when {strictly beyond the bound} <= R <= {at or beyond the bound}; for "
     "completely_within the deciding coordinate is the feature's start (only start given) / end (only end given), "
     "otherwise the feature's end / start",
     "Feature form: judged against the documented behaviour (the query feature's strand is ignored, only strand= restricts)",
     "limit= is given as a (seqid, start, end) tuple or a 'seqid:start-end' string (the documented forms); seqids in "
-    "string forms contain no ':'",
+    "string forms contain no ':' (the unchanged tree cannot express one: region('a:b:1-5') reads seqid 'a' and coordinates 'b' "
+    "and raises ValueError; all_features(limit='a:b:1-5') raises too) - seqids holding ':' are queried through the tuple / "
+    "keyword / Feature forms only; every other character of a stored seqid (',', '-', ' ', '%', '=', ';', '|') belongs to the "
+    "seqid in the string forms as well",
+    "the bare 'seqid' string form of region() (no coordinates) is judged only against region(seqid=...) with the same "
+    "restrictions (equal multisets) and against the features of other seqids / outside the restrictions (none returned, each "
+    "feature once); that it returns every feature of the seqid is counted, not demanded",
+    "a featuretype iterable that names a type more than once restricts like the set of its entries (each feature once)",
     "queries with no bound at all and empty featuretype collections are outside the statement and not generated",
     "children/parents: two-level hierarchies only (level-1 relations), so the relation model is the Parent attribute",
     "seqids are compared as exact strings (letter case matters), as everywhere else in gffutils and in the GFF3 format",
@@ -370,6 +398,8 @@ def execute(ctx, case):
         return execute_big(ctx, case)
     if case["kind"] == "rewritten":
         return execute_rewritten(ctx, case)
+    if case["kind"] == "oddseq":
+        return execute_oddseq(ctx, case)
     q = case["query"]
     db, SET, stored_bin = get_db(ctx, case["set"])
     feats = SET["features"]
@@ -522,6 +552,11 @@ def observe_class(ctx, q, SET, uni, lower, present):
             ctx.mon("id-less: parents(limit=) of a feature without ID attribute, non-empty answer")
             if q["id"] in twins:
                 ctx.mon("id-less twins: parents(limit=) of one of several byte-identical features, non-empty answer")
+    if q["ft"] is not None and len(set(q["ft"])) != len(q["ft"]):
+        api = "region" if kind == "region" else q["api"] + "(limit=)"
+        ctx.mon("repeated featuretypes: queries whose featuretype iterable names a type more than once: %s" % api)
+        if lower:
+            ctx.mon("repeated featuretypes: non-empty answers, each feature once: %s" % api)
     tag = q.get("tag")
     if tag == "wide":
         ctx.mon("wide queries (start <= 2^17, span 100-500 Mb): %s %s" % (kind, wo))
@@ -811,6 +846,208 @@ def execute_handles(ctx, case):
         for p in (path, gff, path + "-journal", path + "-wal", path + "-shm"):
             if os.path.exists(p):
                 os.unlink(p)
+        for v in contracts.drain():
+            report(ctx, case, "contract " + v.get("contract", "?"), v)
+    return useful
+
+
+# ---------------------------------------------------------------------------------------------------------
+ODD_CHARS = [(",", "','"), ("-", "'-'"), (" ", "' '"), ("%", "'%'"), (":", "':'")]
+
+
+def odd_class(seqid):
+    names = [n for c, n in ODD_CHARS if c in seqid]
+    return names or ["none of , - space % :"]
+
+
+def execute_oddseq(ctx, case):
+    """kind "oddseq": {"seed", "seqids": stored seqids, "queries": [...]} (G.gen_oddseq).  Seqids holding ',', '-', ' ', '%'
+    (and their twins without that character, with features at the same coordinates) are stored; every query is asked in the
+    tuple, 'seqid:start-end' string, keyword and Feature form of region() and as limit= tuple / string of the four apis,
+    each answer judged against the scan of the stored rows (plain SQL) and the string form against the tuple form; the bare
+    'seqid' string form against region(seqid=...) and against the stored features of other seqids.  The featuretype
+    restriction is an iterable that may name a type several times (also built from the featuretypes of a gene's children).
+    A seqid holding ':' is queried through the tuple / keyword / Feature forms only."""
+    import gffutils
+    from gvmon.run import Inconclusive
+
+    model = G.make_odd(case["seed"], case["seqids"])
+    try:
+        db = gffutils.create_db(G.text_of(model), ":memory:", from_string=True)
+        rows = db.conn.execute("SELECT id, seqid, featuretype, start, end, strand FROM features").fetchall()
+        rel = db.conn.execute("SELECT parent, child FROM relations WHERE level = 1").fetchall()
+    except Exception as ex:
+        raise Inconclusive("oddseq: building the database failed: %r" % (ex,))
+    up = {}
+    for p, c in rel:
+        up.setdefault(c, []).append(p)
+    feats = [{"id": r[0], "seqid": r[1], "featuretype": r[2], "start": r[3], "end": r[4], "strand": r[5],
+              "parents": up.get(r[0], [])} for r in rows]
+    written = {f["id"]: f for f in model}
+    if sorted(written) != sorted(f["id"] for f in feats):
+        db.conn.close()
+        raise Inconclusive("oddseq: the imported feature ids differ from the model (see C01)")
+    renamed = sorted(set((written[f["id"]]["seqid"], f["seqid"]) for f in feats if written[f["id"]]["seqid"] != f["seqid"]))
+    if renamed:
+        # what the importer makes of the seqid column is C01's; the stored value is what is queried here
+        ctx.mon("odd seqids: seqids stored otherwise than written (the stored spelling is queried)", len(renamed))
+    to_stored = dict(renamed)
+    stored_seqids = sorted(set(f["seqid"] for f in feats))
+    ctx.mon("odd seqids: databases built")
+    ctx.mon("features imported", len(rows))
+    sqltrace.reset()
+    contracts.drain()
+    useful = False
+
+    def ask(what, fn, lower, upper, q, extra=None):
+        """Run one real call, judge it against the scan; returns the ids or None."""
+        ctx.mon("queries executed")
+        try:
+            got = [f.id for f in fn()]
+        except Exception as ex:
+            report(ctx, case, "oddseq raised:" + what.split(" ")[0], {
+                "why": "odd seqids / repeated featuretypes: %s raised %s" % (what, repr(ex)[:300]), "query": q,
+                "stored seqids": stored_seqids})
+            return None
+        ctx.mon("result rows compared", len(got))
+        bad = M.judge(got, lower, upper)
+        if bad:
+            by_id = {f["id"]: f for f in feats}
+            d = {"why": "odd seqids / repeated featuretypes: %s differs from the full scan of the stored features" % what,
+                 "query": q, "stored seqids": stored_seqids, "n_got": len(got), "n_expected": len(lower)}
+            for k, ids in bad.items():
+                d[k] = [[i, by_id[i]["seqid"], by_id[i]["start"], by_id[i]["end"], by_id[i]["featuretype"]] for i in ids[:6]
+                        if i in by_id]
+                d["n " + k] = len(ids)
+            if bad["unexpected"] and any(by_id[i]["seqid"] != q["seqid"] for i in bad["unexpected"] if i in by_id):
+                d["why"] += " (features of ANOTHER seqid returned)"
+            if extra:
+                d.update(extra)
+            report(ctx, case, "oddseq:" + what.split(" ")[0] + (":twice" if bad["returned twice"] else ""), d)
+            return None
+        return got
+
+    try:
+        for q0 in case["queries"]:
+            q = dict(q0, seqid=to_stored.get(q0["seqid"], q0["seqid"]))
+            seqid, a, b, within, strand = q["seqid"], q["start"], q["end"], q["within"], q["strand"]
+            colon = ":" in seqid
+            # ---- the featuretype restriction
+            ft = q["ft"]
+            if q["ft_from"] is not None:
+                ft = [c.featuretype for c in db.children(q["ft_from"])]       # a list built from children's featuretypes
+                if not ft:
+                    ft = None
+                    ctx.mon("repeated featuretypes: gene without children (no restriction used)")
+                else:
+                    ctx.mon("repeated featuretypes: restriction built from the featuretypes of a feature's children")
+            q["ft"] = ft
+            rep = ft is not None and len(set(ft)) != len(ft)
+            ftarg = None if ft is None else (tuple(ft) if q["ft_form"] == "tuple" else list(ft))
+            cls = odd_class(seqid)
+            if a is None:
+                # ---- bare "seqid": against region(seqid=seqid) and against the features of every other seqid
+                _, upper = [], [f["id"] for f in feats if M.restricted(f, seqid, strand, set(ft) if ft is not None else None)]
+                kw = dict(strand=strand, featuretype=ftarg, completely_within=within)
+                ref = ask("region/kw without coordinates", lambda: db.region(seqid=seqid, **kw), [], upper, q)
+                if ref is None:
+                    continue
+                if colon:
+                    ctx.mon("odd seqids: string forms not asked (the seqid holds ':')")
+                    continue
+                got = ask("region/string without coordinates ('seqid')", lambda: db.region(seqid, **kw), [], upper, q)
+                if got is None:
+                    continue
+                if sorted(got) != sorted(ref):
+                    report(ctx, case, "oddseq:bare", {
+                        "why": "odd seqids: region(%r) (bare seqid string) does not return what region(seqid=%r) returns" % (seqid, seqid),
+                        "query": q, "n string form": len(got), "n keyword form": len(ref), "stored seqids": stored_seqids})
+                    continue
+                if got:
+                    useful = True
+                    ctx.mon("odd seqids: bare 'seqid' string form, non-empty answer equal to the keyword form")
+                    for c in cls:
+                        ctx.mon("odd seqids: bare 'seqid' string form, non-empty answer, seqid holding %s" % c)
+                    if sorted(got) == sorted(upper):
+                        ctx.mon("odd seqids: bare 'seqid' answers holding every stored feature of the seqid (restrictions applied)")
+                    if rep:
+                        ctx.mon("repeated featuretypes: non-empty answers, each feature once: region")
+                continue
+            # ---- two bounds
+            lower, upper = M.expected(feats, seqid, a, b, within, strand, ft)
+            others = [s for s in stored_seqids if s != seqid and M.expected(feats, s, a, b, within, strand, ft)[0]]
+            twin = [s for s in others if s == "".join(ch for ch in seqid if ch not in ", -%")
+                    or any(s == seqid.replace(c, "") for c, _ in ODD_CHARS)]
+            kw = dict(strand=strand, featuretype=ftarg, completely_within=within)
+            forms = [("tuple", lambda: db.region((seqid, a, b), **kw)),
+                     ("kw", lambda: db.region(seqid=seqid, start=a, end=b, **kw)),
+                     ("feature", lambda: db.region(gffutils.Feature(seqid=seqid, start=a, end=b), **kw))]
+            if not colon:
+                forms.insert(1, ("string", lambda: db.region("%s:%d-%d" % (seqid, a, b), **kw)))
+            answers = {}
+            for name, fn in forms:
+                got = ask("region/%s" % name, fn, lower, upper, q)
+                if got is not None:
+                    answers[name] = got
+                    ctx.mon("odd seqids: queries: region %s" % name)
+            if colon:
+                ctx.mon("odd seqids: string forms not asked (the seqid holds ':')")
+                if answers.get("tuple"):
+                    ctx.mon("odd seqids: non-empty tuple / keyword / Feature form answers on a seqid holding ':'")
+            if "string" in answers and "tuple" in answers and sorted(answers["string"]) != sorted(answers["tuple"]):
+                report(ctx, case, "oddseq:string!=tuple", {"why": "odd seqids: region('seqid:start-end') differs from region((seqid, start, end))",
+                                                          "query": q, "stored seqids": stored_seqids})
+            if len(answers) == len(forms) and lower:
+                useful = True
+                if not colon:
+                    for c in cls:
+                        ctx.mon("odd seqids: region string form, non-empty answer equal to the tuple form, seqid holding %s" % c)
+                    if others:
+                        ctx.mon("odd seqids: region string-form queries that another stored seqid's features would have matched (none returned)")
+                    if twin:
+                        ctx.mon("odd seqids: region string-form queries that the features of the twin seqid without the character "
+                                "would have matched (none returned)")
+                if rep:
+                    ctx.mon("repeated featuretypes: non-empty answers, each feature once: region")
+                    ctx.mon("repeated featuretypes: non-empty answers, each feature once: region %s" % ("within" if within else "overlap"))
+            # ---- limit= of the four apis
+            kid = next((f["id"] for f in feats if q["gene"] in f["parents"]), None) if q["gene"] else None
+            lims = [("tuple", (seqid, a, b))] + ([] if colon else [("string", "%s:%d-%d" % (seqid, a, b))])
+            for api in ("all_features", "features_of_type", "children", "parents"):
+                if api == "features_of_type" and ft is None:
+                    continue
+                ident = q["gene"] if api == "children" else kid if api == "parents" else None
+                if api in ("children", "parents") and ident is None:
+                    continue
+                uni = M.universe(feats, api, ident)
+                st = strand if api in ("all_features", "features_of_type") else None
+                lo, upp = M.expected(uni, seqid, a, b, within, st, ft)
+                res = {}
+                for lname, lim in lims:
+                    if api == "all_features":
+                        fn = lambda lim=lim: db.all_features(limit=lim, strand=st, featuretype=ftarg, completely_within=within)
+                    elif api == "features_of_type":
+                        fn = lambda lim=lim: db.features_of_type(ftarg, limit=lim, strand=st, completely_within=within)
+                    elif api == "children":
+                        fn = lambda lim=lim: db.children(ident, limit=lim, featuretype=ftarg, completely_within=within)
+                    else:
+                        fn = lambda lim=lim: db.parents(ident, limit=lim, featuretype=ftarg, completely_within=within)
+                    got = ask("%s(limit=%s)" % (api, lname), fn, lo, upp, dict(q, api=api, id=ident))
+                    if got is not None:
+                        res[lname] = got
+                if len(res) == len(lims) and lo:
+                    useful = True
+                    if not colon:
+                        for c in cls:
+                            ctx.mon("odd seqids: limit= string form, non-empty answer equal to the tuple form, seqid holding %s" % c)
+                        ctx.mon("odd seqids: limit= string form, non-empty answers: %s" % api)
+                    if rep:
+                        ctx.mon("repeated featuretypes: non-empty answers, each feature once: %s(limit=)" % api)
+    finally:
+        try:
+            db.conn.close()
+        except Exception:
+            pass
         for v in contracts.drain():
             report(ctx, case, "contract " + v.get("contract", "?"), v)
     return useful
@@ -1303,6 +1540,14 @@ def run(ctx):
         useful = execute(ctx, case)
         ctx.case((case["set"]["seed"], case["rw"], case["fresh"]), bool(useful), cls="rewritten/rows rewritten with other coordinates",
                  sample={"set": case["set"], "rw": case["rw"], "fresh": case["fresh"], "queries": len(case["queries"])})
+    # seqids holding ',', '-', ' ', '%' (and twins without), every string form against the tuple form; featuretype
+    # iterables naming a type several times
+    for _ in range(ctx.budget(100, 16 * 220)):
+        case = G.gen_oddseq(rng)
+        useful = execute(ctx, case)
+        ctx.case(("oddseq", case["seed"], repr(case["seqids"]), repr(case["queries"])), bool(useful),
+                 cls="oddseq/seqids holding , - space % and repeated featuretype entries",
+                 sample={"seqids": case["seqids"], "seed": case["seed"], "queries": case["queries"][:3]})
     if ctx.shard % 4 == 0:
         # one LARGE answer (costs ~10 s, hence one shard of four)
         case = {"kind": "big", "seed": rng.randrange(1 << 30)}
